@@ -1,257 +1,366 @@
 /-
   C13 — ANSI colour codes do not change where lines break.
-  Stage lemmas of the simulation between wrapping coloured text and wrapping the text with the
-  sequences removed: stripping is a homomorphism at normal-state cuts, it does not change display
-  widths, it commutes with the Unicode separator (same opportunities) and with `break_apart`.
-  The end-to-end composition (`wrap_strip_commute`) is not part of this file; it is decided by
-  the oracle on every generated case.
+  Stage lemmas (in `Lemmas/StripStages.lean`, namespace `TW.C13`): stripping is a homomorphism at
+  normal-state cuts, it does not change display widths, it commutes with the Unicode separator
+  (same opportunities) and with `break_apart`.
+  End to end (`Lemmas/Colour1-3.lean`, this file): coloured text is given as blocks — every
+  visible character preceded by a (possibly empty) run of space-free escape sequences, plus a
+  trailing run — and every non-empty run is attached to a non-space character. Then the lines of
+  the coloured text, with the sequences removed, are the lines of the visible text.
 -/
-import Lemmas.Words
-import Lemmas.Break
-import Props.C11
+import Lemmas.StripStages
+import Lemmas.Colour3
+import Props.C14
 namespace TW.C13
 
-/-- stripped text is ESC-free -/
-theorem stripFrom_noEsc (s : Ansi) (t : Text) : ∀ c ∈ stripFrom s t, c ≠ ESC := by
-  induction t generalizing s with
-  | nil => simp [stripFrom]
-  | cons d ds ih =>
-    simp only [stripFrom]
-    split
-    · next hv =>
-      intro c hc
-      rcases List.mem_cons.mp hc with rfl | hc
-      · have hs := step_visible_normal s c hv
-        subst hs
-        intro he; subst he; simp [Ansi.step] at hv
-      · exact ih _ c hc
-    · exact ih _
-
-/-- **stripping is a homomorphism at a cut made in skipper state `normal`** -/
 -- @audit TW.C13.strip_append_normal
-theorem strip_append_normal (a b : Text) (h : Ansi.run .normal a = .normal) :
-    stripAnsi (a ++ b) = stripAnsi a ++ stripAnsi b := by
-  unfold stripAnsi; rw [stripFrom_append, h]
-
-/-- **stripping does not change the display width** (so coloured and stripped text yield the
-    same numeric fragment widths) -/
 -- @audit TW.C13.dw_strip
-theorem dw_strip (cw : Char → Nat) (s : Ansi) (t : Text) :
-    dwFrom cw .normal (stripFrom s t) = dwFrom cw s t := by
-  induction t generalizing s with
-  | nil => simp [stripFrom, dwFrom]
-  | cons c cs ih =>
-    simp only [stripFrom, dwFrom]
-    split
-    · next hv =>
-      have hs := step_visible_normal s c hv
-      subst hs
-      have hc : c ≠ ESC := by intro he; subst he; simp [Ansi.step] at hv
-      have hst : Ansi.normal.step c = (.normal, true) := by simp [Ansi.step, hc]
-      simp only [hst, dwFrom, if_true]
-      rw [ih]
-    · next hv =>
-      have hv' : (s.step c).2 = false := by simpa using hv
-      simp only [hv', Bool.false_eq_true, if_false, Nat.zero_add]
-      exact ih _
-
 -- @audit TW.C13.displayWidth_strip
-theorem displayWidth_strip (cw : Char → Nat) (t : Text) :
-    displayWidth cw (stripAnsi t) = displayWidth cw t := dw_strip cw .normal t
-
-/-! ### `break_apart` commutes with stripping -/
-
-def stripW (w : Word) : Word := { w with word := stripAnsi w.word }
-
-theorem breakGo_strip (cw : Char → Nat) (limit : Nat) (ws pen : Text) (s : Ansi) (cur : Text) (w : Nat)
-    (rest : Text) (hs : s = Ansi.run .normal cur)
-    (hvis : stripAnsi cur ≠ [] ∨ stripFrom s rest ≠ []) :
-    (breakGo cw limit ws pen s cur w rest).map stripW =
-      breakGo cw limit ws pen .normal (stripAnsi cur) w (stripFrom s rest) := by
-  induction rest generalizing s cur w with
-  | nil =>
-    simp only [stripFrom, breakGo]
-    have hne : stripAnsi cur ≠ [] := by
-      rcases hvis with h | h
-      · exact h
-      · simp [stripFrom] at h
-    have hcur : cur ≠ [] := by intro h; subst h; simp [stripAnsi, stripFrom] at hne
-    have e1 : cur.isEmpty = false := by simpa using hcur
-    have e2 : (stripAnsi cur).isEmpty = false := by simpa using hne
-    simp only [e1, e2, Bool.false_eq_true, if_false, List.map_cons, List.map_nil, stripW]
-  | cons c cs ih =>
-    have hrun : (s.step c).1 = Ansi.run .normal (cur ++ [c]) := by
-      rw [run_append, ← hs]; simp [Ansi.run]
-    have hstrip : stripAnsi (cur ++ [c]) = stripAnsi cur ++ (if (s.step c).2 then [c] else []) := by
-      unfold stripAnsi
-      rw [stripFrom_append, ← hs]
-      by_cases h : (s.step c).2 = true <;> simp [stripFrom, h]
-    simp only [breakGo, stripFrom]
-    by_cases hv : (s.step c).2 = true
-    · have hsn := step_visible_normal s c hv
-      have hcE : c ≠ ESC := by intro he; subst he; subst hsn; simp [Ansi.step] at hv
-      have hstep : (Ansi.normal.step c) = (.normal, true) := by simp [Ansi.step, hcE]
-      simp only [hv, if_true, breakGo, hstep]
-      have hnext : (s.step c).1 = .normal := by subst hsn; simp [Ansi.step, hcE]
-      by_cases hcut : 0 < w ∧ limit < w + cw c
-      · simp only [hcut, and_self, if_true, List.map_cons]
-        have := ih (s.step c).1 [c] (cw c) (by rw [hnext]; subst hsn; simp [Ansi.run, Ansi.step, hcE])
-          (Or.inl (by simp [stripAnsi, stripFrom, Ansi.step, hcE]))
-        rw [this, hnext]
-        simp [stripW, stripAnsi, stripFrom, Ansi.step, hcE]
-      · simp only [hcut, if_false]
-        have := ih (s.step c).1 (cur ++ [c]) (w + cw c) hrun (Or.inl (by rw [hstrip]; simp [hv]))
-        rw [this, hstrip, hnext]; simp [hv]
-    · have hv' : (s.step c).2 = false := by simpa using hv
-      simp only [hv', Bool.false_eq_true, if_false]
-      have := ih (s.step c).1 (cur ++ [c]) w hrun (by
-        rcases hvis with h | h
-        · left; rw [hstrip]; simp [hv', h]
-        · right; simpa [stripFrom, hv'] using h)
-      rw [this, hstrip]; simp [hv']
-
-/-- **force-breaking a coloured word and then stripping the pieces = force-breaking the stripped
-    word** (for a word with at least one visible character — always the case when `break_words`
-    calls `break_apart`, whose cached width exceeds the limit): same cut positions, no sequence
-    is cut in two -/
 -- @audit TW.C13.break_strip_commute
-theorem break_strip_commute (cw : Char → Nat) (limit : Nat) (w : Word) (hvis : stripAnsi w.word ≠ []) :
-    (breakApart cw limit w).map stripW = breakApart cw limit (stripW w) := by
-  unfold breakApart
-  have := breakGo_strip cw limit w.ws w.pen .normal [] 0 w.word rfl (Or.inr hvis)
-  simpa [stripW, stripAnsi, stripFrom] using this
-
-/-! ### the Unicode separator commutes with stripping -/
-
-/-- two splittings of the same text with the same cumulative byte lengths are equal -/
-theorem pieces_unique : ∀ (p q : List Text), p.flatten = q.flatten → p.length = q.length →
-    (∀ k, k < p.length → blen (p.take (k + 1)).flatten = blen (q.take (k + 1)).flatten) → p = q
-  | [], [], _, _, _ => rfl
-  | [], _ :: _, _, h, _ => by simp at h
-  | _ :: _, [], _, h, _ => by simp at h
-  | a :: p, b :: q, hf, hl, hc => by
-    have h0 := hc 0 (by simp)
-    simp only [List.take_succ_cons, List.take_zero, List.flatten_cons, List.flatten_nil, List.append_nil] at h0
-    simp only [List.flatten_cons] at hf
-    obtain ⟨rfl, hrest⟩ := split_unique hf h0
-    congr 1
-    apply pieces_unique p q hrest (by simpa using hl)
-    intro k hk
-    have := hc (k + 1) (by simp; omega)
-    simp only [List.take_succ_cons, List.flatten_cons, blen_append] at this
-    omega
-
-/-- stripping distributes over pieces all of whose proper prefixes end in state `normal` -/
-theorem strip_flatten (P : List Text)
-    (h : ∀ pre p post, P = pre ++ p :: post → pre ≠ [] → Ansi.run .normal pre.flatten = .normal) :
-    stripAnsi P.flatten = (P.map stripAnsi).flatten := by
-  induction P with
-  | nil => rfl
-  | cons a rest ih =>
-    cases rest with
-    | nil => simp
-    | cons b r =>
-      have ha : Ansi.run .normal a = .normal := by
-        have := h [a] b r rfl (by simp)
-        simpa using this
-      simp only [List.flatten_cons, List.map_cons]
-      rw [strip_append_normal a _ ha]
-      congr 1
-      have := ih (fun pre p post hp hne => by
-        have := h (a :: pre) p post (by simp [hp]) (by simp)
-        simp only [List.flatten_cons, run_append, ha] at this
-        exact this)
-      simpa using this
-
-theorem take_split {α} (P : List α) (k : Nat) (hk : k + 1 < P.length) :
-    ∃ p post, P = P.take (k + 1) ++ p :: post := by
-  have h2 : P.drop (k + 1) ≠ [] := by
-    intro he
-    have := congrArg List.length he
-    simp at this; omega
-  obtain ⟨p, post, hp⟩ : ∃ p post, P.drop (k + 1) = p :: post := by
-    cases hd : P.drop (k + 1) with
-    | nil => exact absurd hd h2
-    | cons p post => exact ⟨p, post, rfl⟩
-  exact ⟨p, post, by rw [← hp, List.take_append_drop]⟩
-
-/-- **the words found in coloured text, with the sequences stripped, are the words found in the
-    stripped text** (Unicode separator; the opportunities are those of the stripped text in both
-    runs): strictly increasing char-boundary opportunities before the end. -/
 -- @audit TW.C13.unicode_strip_commute
-theorem unicode_strip_commute (os : List Nat) (line : Text) (hline : stripAnsi line ≠ [])
-    (hinc : os.Pairwise (· < ·))
-    (hb : ∀ o ∈ os, ∃ p d q, stripAnsi line = p ++ d :: q ∧ blen p = o) :
-    (uniGo .normal 0 [] os line).map stripAnsi = uniGo .normal 0 [] os (stripAnsi line) := by
-  have hlne : line ≠ [] := by intro h; subst h; simp [stripAnsi, stripFrom] at hline
-  have hSS : stripAnsi (stripAnsi line) = stripAnsi line :=
-    stripFrom_normal_escfree _ (stripFrom_noEsc .normal line)
-  -- lengths
-  have hlP : (uniGo .normal 0 [] os line).length = os.length + 1 :=
-    uniGo_length _ _ _ _ _ hinc (fun o ho => by
-      obtain ⟨p, d, q, h1, rfl⟩ := hb o ho
-      exact TW.C11.reach_of_strip .normal line p d q h1) (Or.inr hlne)
-  have hlQ : (uniGo .normal 0 [] os (stripAnsi line)).length = os.length + 1 :=
-    uniGo_length _ _ _ _ _ hinc (fun o ho => by
-      obtain ⟨p, d, q, h1, rfl⟩ := hb o ho
-      exact TW.C11.reach_of_strip .normal (stripAnsi line) p d q (by unfold stripAnsi at hSS ⊢; rw [hSS]; exact h1))
-      (Or.inr hline)
-  -- soundness of the cuts on both sides
-  have sP := uniGo_cuts_sound .normal 0 .normal 0 [] os line rfl (by simp [stripFrom])
-  have sQ := uniGo_cuts_sound .normal 0 .normal 0 [] os (stripAnsi line) rfl (by simp [stripFrom])
-  have hP : ∀ pre p post, uniGo .normal 0 [] os line = pre ++ p :: post → pre ≠ [] →
-      Ansi.run .normal pre.flatten = .normal := fun pre p post h hne => (sP pre p post h hne).1
-  apply pieces_unique
-  · -- same concatenation
-    rw [← strip_flatten _ hP, uniGo_flatten, uniGo_flatten]; simp
-  · simp [hlP, hlQ]
-  · intro k hk
-    simp only [List.length_map] at hk
-    by_cases hlast : k + 1 = (uniGo .normal 0 [] os line).length
-    · -- the whole lists
-      have e1 : ((uniGo .normal 0 [] os line).map stripAnsi).take (k + 1) = (uniGo .normal 0 [] os line).map stripAnsi := by
-        apply List.take_of_length_le; simp [hlast]
-      have e2 : (uniGo .normal 0 [] os (stripAnsi line)).take (k + 1) = uniGo .normal 0 [] os (stripAnsi line) := by
-        apply List.take_of_length_le; rw [hlQ, ← hlP, hlast]; exact Nat.le_refl _
-      rw [e1, e2, ← strip_flatten _ hP, uniGo_flatten, uniGo_flatten]; simp
-    · have hk1 : k + 1 < (uniGo .normal 0 [] os line).length := by omega
-      have hk2 : k + 1 < (uniGo .normal 0 [] os (stripAnsi line)).length := by rw [hlQ, ← hlP]; exact hk1
-      obtain ⟨p1, post1, h1⟩ := take_split _ k hk1
-      obtain ⟨p2, post2, h2⟩ := take_split _ k hk2
-      have hlen1 : ((uniGo .normal 0 [] os line).take (k + 1)).length = k + 1 := by
-        rw [List.length_take]; exact Nat.min_eq_left (Nat.le_of_lt hk1)
-      have hlen2 : ((uniGo .normal 0 [] os (stripAnsi line)).take (k + 1)).length = k + 1 := by
-        rw [List.length_take]; exact Nat.min_eq_left (Nat.le_of_lt hk2)
-      have hne1 : (uniGo .normal 0 [] os line).take (k + 1) ≠ [] := by
-        intro he; rw [he] at hlen1; simp at hlen1
-      have hne2 : (uniGo .normal 0 [] os (stripAnsi line)).take (k + 1) ≠ [] := by
-        intro he; rw [he] at hlen2; simp at hlen2
-      obtain ⟨_, a2⟩ := sP _ p1 post1 h1 hne1
-      obtain ⟨_, b2⟩ := sQ _ p2 post2 h2 hne2
-      rw [hlen1] at a2; rw [hlen2] at b2
-      simp only [Nat.zero_add, Nat.add_sub_cancel] at a2 b2
-      rw [a2] at b2
-      simp only [Option.some.injEq] at b2
-      -- left: strip of the prefix; right: the prefix of ESC-free pieces is its own strip
-      have hl : (((uniGo .normal 0 [] os line).map stripAnsi).take (k + 1)).flatten =
-          stripAnsi ((uniGo .normal 0 [] os line).take (k + 1)).flatten := by
-        rw [← List.map_take]
-        symm
-        apply strip_flatten
-        intro pre p post hp hne
-        have : uniGo .normal 0 [] os line = pre ++ p :: (post ++ p1 :: post1) := by
-          rw [h1, hp]; simp
-        exact hP pre p _ this hne
-      have hr : stripAnsi ((uniGo .normal 0 [] os (stripAnsi line)).take (k + 1)).flatten =
-          ((uniGo .normal 0 [] os (stripAnsi line)).take (k + 1)).flatten := by
-        apply stripFrom_normal_escfree
-        intro c hc
-        have hmem : c ∈ (uniGo .normal 0 [] os (stripAnsi line)).flatten := by
-          rw [h2]; simp only [List.flatten_append]; exact List.mem_append_left _ hc
-        rw [uniGo_flatten] at hmem
-        exact stripFrom_noEsc .normal line c (by simpa [stripAnsi] using hmem)
-      rw [hl, ← hr]
-      unfold stripAnsi at b2 ⊢
-      omega
+
+section
+variable {α : Type} [CostNum α]
+
+/-- the fragments of the coloured paragraph are, sequence for sequence, the fragments of the
+    visible paragraph (no hyphenation; both separators; `break_words` on or off) -/
+theorem pipeline_colour (env : Env) (o : Opts) (hsp : o.splitter = .none)
+    (bs : List Block) (tl : Text) (hv : ValidB bs tl) (hatt : Attached none bs tl)
+    (hinc : (env.opps (visOf bs)).Pairwise (· < ·)) (sw : Nat) (frs : List Word)
+    (h : pipeline env o (colOf bs tl) sw = some frs) :
+    ∃ frs', pipeline env o (visOf bs) sw = some frs' ∧ AllRel (WR env.cw) frs frs' := by
+  unfold pipeline at h ⊢
+  -- words
+  have hwords : ∀ fw, findWords env o.sep (colOf bs tl) = some fw →
+      ∃ fw', findWords env o.sep (visOf bs) = some fw' ∧ AllRel (WR env.cw) fw fw' := by
+    intro fw hfw
+    cases hs : o.sep with
+    | ascii =>
+      rw [hs] at hfw
+      simp only [findWords, Option.some.injEq] at hfw ⊢
+      subst hfw
+      exact ⟨_, rfl, findWordsAscii_colour env.cw bs tl hv hatt⟩
+    | unicode =>
+      rw [hs] at hfw
+      simp only [findWords] at hfw ⊢
+      exact findWordsUnicode_colour env bs tl hv hatt hinc fw hfw
+  split at h
+  · simp at h
+  · next fw hfw =>
+    obtain ⟨fw', hfw', hrel⟩ := hwords fw hfw
+    simp only [hfw']
+    -- no split points: the words pass through
+    have hcachedC : ∀ W ∈ fw, (o.splitter.points env.isAlnum W.word = [] ∧ W.width = displayWidth env.cw W.word) := by
+      intro W hW
+      refine ⟨by rw [hsp]; rfl, ?_⟩
+      -- every coloured word is related to some visible word
+      have : ∀ (a : List Word) (b : List Word), AllRel (WR env.cw) a b → ∀ W ∈ a, W.width = displayWidth env.cw W.word := by
+        intro a b hab
+        induction hab with
+        | nil => intro W hW; simp at hW
+        | cons h1 _ ih =>
+          intro W hW
+          rcases List.mem_cons.mp hW with rfl | hW
+          · exact h1.2.2.2
+          · exact ih W hW
+      exact this fw fw' hrel W hW
+    have hcachedV : ∀ W ∈ fw', (o.splitter.points env.isAlnum W.word = [] ∧ W.width = displayWidth env.cw W.word) := by
+      intro W hW
+      refine ⟨by rw [hsp]; rfl, ?_⟩
+      have : ∀ (a : List Word) (b : List Word), AllRel (WR env.cw) a b → ∀ W ∈ b, W.width = displayWidth env.cw W.word := by
+        intro a b hab
+        induction hab with
+        | nil => intro W hW; simp at hW
+        | cons h1 _ ih =>
+          intro W hW
+          rcases List.mem_cons.mp hW with rfl | hW
+          · exact h1.width'
+          · exact ih W hW
+      exact this fw fw' hrel W hW
+    rw [splitWords_nopoints env o.splitter fw hcachedC] at h
+    rw [splitWords_nopoints env o.splitter fw' hcachedV]
+    simp only at h ⊢
+    have hbw := breakWords_colour env.cw sw fw fw' hrel
+    cases hbw' : o.breakWords with
+    | false =>
+      simp only [hbw', Bool.false_eq_true, if_false, Option.some.injEq] at h ⊢
+      subst h
+      exact ⟨_, rfl, hrel⟩
+    | true =>
+      simp only [hbw', if_true] at h ⊢
+      cases hii : o.initialIndent.isEmpty with
+      | true =>
+        simp only [hii, if_true, Option.some.injEq] at h ⊢
+        subst h
+        exact ⟨_, rfl, hbw⟩
+      | false =>
+        simp only [hii, Bool.false_eq_true, if_false, Option.some.injEq] at h ⊢
+        subst h
+        refine ⟨_, rfl, AllRel.cons ?_ hbw⟩
+        exact ⟨by simp [stripW, Word.from, trimEndSp, stripAnsi, stripFrom], by simp [Word.from, trimEndSp, Ansi.run],
+          by simp [Word.from, trimEndSp], by simp [Word.from]⟩
+
+/-- **one paragraph, the general path**: the lines of the coloured paragraph — indent, slice,
+    inserted penalty — are those of the visible paragraph, with the sequences removed from the
+    slices. Both separators, both algorithms (the minima routine is asked the same question in
+    both runs), `break_words` on or off, every width and indents; no hyphenation. -/
+-- @audit TW.C13.slow_path_colour
+theorem slow_path_colour (env : Env) (mo : MinimaOracle α) (hmo : MoShape mo) (o : Opts)
+    (hsp : o.splitter = .none)
+    (bs : List Block) (tl : Text) (hv : ValidB bs tl) (hatt : Attached none bs tl)
+    (hinc : (env.opps (visOf bs)).Pairwise (· < ·)) (nPrev : Nat) (dsC : List LineD)
+    (h : wrapSingleLineSlow env mo o (colOf bs tl) nPrev = some dsC) :
+    ∃ dsV, wrapSingleLineSlow env mo o (visOf bs) nPrev = some dsV ∧
+      dsC.map (fun d => (d.indent, stripAnsi d.slice, d.pen)) = dsV.map LineD.parts := by
+  have hr : SplitterInRange env.isAlnum o.splitter := by
+    rw [hsp]; intro w i hi; simp [Splitter.points] at hi
+  unfold wrapSingleLineSlow at h ⊢
+  simp only at h ⊢
+  split at h
+  · simp at h
+  · next frs hp =>
+    obtain ⟨frs', hp', hrel⟩ := pipeline_colour env o hsp bs tl hv hatt hinc _ frs hp
+    simp only [hp']
+    obtain ⟨c1, _⟩ := pipeline_contig env o hr _ _ frs hp
+    obtain ⟨c1', _⟩ := pipeline_contig env o hr _ _ frs' hp'
+    split at h
+    · simp at h
+    · next G hg =>
+      obtain ⟨G', hg', hG⟩ := wrapAlg_rel (fun a b hab => hab.frag) mo o.alg frs frs' _ hrel G hg
+      simp only [hg']
+      obtain ⟨p1, _, _, _⟩ := wrapAlg_partition mo hmo o.alg frs _ G hg
+      obtain ⟨p1', _, _, _⟩ := wrapAlg_partition mo hmo o.alg frs' _ G' hg'
+      rw [reassemble_eq_spec o _ [] G 0 nPrev (by simp [p1, c1]) rfl] at h
+      rw [reassemble_eq_spec o _ [] G' 0 nPrev (by simp [p1', c1']) rfl]
+      simp only [Option.some.injEq] at h
+      subst h
+      exact ⟨_, rfl, specLines_colour env.cw o G G' 0 0 nPrev hG⟩
+
+/-- the rendered line with its sequences removed, for indents without ESC -/
+theorem strip_render (d : LineD) (hind : ∀ c ∈ d.indent, c ≠ ESC) (hpen : ∀ c ∈ d.pen, c ≠ ESC)
+    (hrun : Ansi.run .normal d.slice = .normal) :
+    stripAnsi d.render = d.indent ++ stripAnsi d.slice ++ d.pen := by
+  unfold LineD.render
+  have h1 : Ansi.run .normal d.indent = .normal := run_normal_escfree _ hind
+  rw [show d.indent ++ d.slice ++ d.pen = d.indent ++ (d.slice ++ d.pen) by simp,
+    strip_append_normal _ _ h1, strip_append_normal _ _ hrun]
+  have e1 : stripAnsi d.indent = d.indent := stripFrom_normal_escfree _ hind
+  have e2 : stripAnsi d.pen = d.pen := stripFrom_normal_escfree _ hpen
+  rw [e1, e2]; simp
+
+end
+
+section
+variable {α : Type} [CostNum α]
+
+theorem run_groupSlice (cw : Char → Nat) (g g' : List Word) (h : AllRel (WR cw) g g') :
+    Ansi.run .normal (groupSlice g) = .normal := by
+  unfold groupSlice
+  rcases h.getLast with ⟨h1, _⟩ | ⟨a, b, h1, _, h3, h4⟩
+  · simp [h1, Ansi.run]
+  · simp only [h1]
+    rw [run_append, (strip_wordsText cw _ _ h4).2]
+    exact h3.2.1
+
+theorem specLines_mem (o : Opts) (G : List (List Word)) (idx n : Nat) :
+    ∀ d ∈ specLines o G idx n, ∃ g ∈ G, d.slice = groupSlice g ∧
+      (d.pen = [] ∨ ∃ last ∈ g, d.pen = last.pen) ∧
+      (d.indent = o.initialIndent ∨ d.indent = o.subsequentIndent) := by
+  induction G generalizing idx n with
+  | nil => intro d hd; simp [specLines] at hd
+  | cons g r ih =>
+    intro d hd
+    simp only [specLines] at hd
+    have hind : ∀ (x : Text), x = (if n = 0 then o.initialIndent else o.subsequentIndent) →
+        x = o.initialIndent ∨ x = o.subsequentIndent := by
+      intro x hx; by_cases h0 : n = 0 <;> simp [hx, h0]
+    cases hl : g.getLast? with
+    | none =>
+      rw [hl] at hd
+      rcases List.mem_cons.mp hd with rfl | hd
+      · exact ⟨g, by simp, by simp [groupSlice, hl], Or.inl rfl, hind _ rfl⟩
+      · obtain ⟨g0, hg0, h⟩ := ih _ _ d hd
+        exact ⟨g0, by simp [hg0], h⟩
+    | some last =>
+      rw [hl] at hd
+      rcases List.mem_cons.mp hd with rfl | hd
+      · exact ⟨g, by simp, rfl, Or.inr ⟨last, List.mem_of_getLast? hl, rfl⟩, hind _ rfl⟩
+      · obtain ⟨g0, hg0, h⟩ := ih _ _ d hd
+        exact ⟨g0, by simp [hg0], h⟩
+
+/-- the same as `slow_path_colour`, on the rendered lines: for indents without ESC, removing
+    the sequences from each line of the coloured paragraph gives the lines of the visible one -/
+-- @audit TW.C13.slow_path_colour_rendered
+theorem slow_path_colour_rendered (env : Env) (mo : MinimaOracle α) (hmo : MoShape mo) (o : Opts)
+    (hsp : o.splitter = .none)
+    (hii : ∀ c ∈ o.initialIndent, c ≠ ESC) (hsi : ∀ c ∈ o.subsequentIndent, c ≠ ESC)
+    (bs : List Block) (tl : Text) (hv : ValidB bs tl) (hatt : Attached none bs tl)
+    (hinc : (env.opps (visOf bs)).Pairwise (· < ·)) (nPrev : Nat) (dsC : List LineD)
+    (h : wrapSingleLineSlow env mo o (colOf bs tl) nPrev = some dsC) :
+    ∃ dsV, wrapSingleLineSlow env mo o (visOf bs) nPrev = some dsV ∧
+      dsC.map (fun d => stripAnsi d.render) = dsV.map LineD.render := by
+  obtain ⟨dsV, h1, h2⟩ := slow_path_colour env mo hmo o hsp bs tl hv hatt hinc nPrev dsC h
+  refine ⟨dsV, h1, ?_⟩
+  -- facts about the coloured lines: slices end in state `normal`, no penalty
+  have hb : Builtin o.splitter := by rw [hsp]; trivial
+  have hr : SplitterInRange env.isAlnum o.splitter := builtin_inRange _ _ hb
+  have hfacts : ∀ d ∈ dsC, Ansi.run .normal d.slice = .normal ∧ d.pen = [] ∧
+      (d.indent = o.initialIndent ∨ d.indent = o.subsequentIndent) := by
+    unfold wrapSingleLineSlow at h
+    simp only at h
+    split at h
+    · simp at h
+    · next frs hp =>
+      obtain ⟨frs', hp', hrel⟩ := pipeline_colour env o hsp bs tl hv hatt hinc _ frs hp
+      have hnp := pipeline_noPen env o hb _ _ frs hp
+      obtain ⟨c1, _⟩ := pipeline_contig env o hr _ _ frs hp
+      split at h
+      · simp at h
+      · next G hg =>
+        obtain ⟨G', hg', hG⟩ := wrapAlg_rel (fun a b hab => hab.frag) mo o.alg frs frs' _ hrel G hg
+        obtain ⟨p1, _, _, _⟩ := wrapAlg_partition mo hmo o.alg frs _ G hg
+        rw [reassemble_eq_spec o _ [] G 0 nPrev (by simp [p1, c1]) rfl] at h
+        simp only [Option.some.injEq] at h
+        subst h
+        intro d hd
+        obtain ⟨g, hg0, e1, e2, e3⟩ := specLines_mem o G 0 nPrev d hd
+        refine ⟨?_, ?_, e3⟩
+        · -- the group is related to some visible group
+          have : ∀ (A : List (List Word)) (B : List (List Word)), AllRel (AllRel (WR env.cw)) A B →
+              ∀ g ∈ A, ∃ g', AllRel (WR env.cw) g g' := by
+            intro A B hAB
+            induction hAB with
+            | nil => intro g hg; simp at hg
+            | cons hab _ ih =>
+              intro g hg
+              rcases List.mem_cons.mp hg with rfl | hg
+              · exact ⟨_, hab⟩
+              · exact ih g hg
+          obtain ⟨g', hgg⟩ := this G G' hG g hg0
+          rw [e1]; exact run_groupSlice env.cw g g' hgg
+        · rcases e2 with e2 | ⟨last, hl, e2⟩
+          · exact e2
+          · rw [e2]
+            exact hnp last (by rw [← p1]; exact List.mem_flatten.mpr ⟨g, hg0, hl⟩)
+  -- line by line
+  have hlen : dsC.length = dsV.length := by simpa using congrArg List.length h2
+  apply List.ext_getElem (by simpa using hlen)
+  intro i hi1 hi2
+  simp only [List.getElem_map]
+  have hi1' : i < dsC.length := by simpa using hi1
+  have hi2' : i < dsV.length := by simpa using hi2
+  have hpart : (fun d : LineD => (d.indent, stripAnsi d.slice, d.pen)) dsC[i] = LineD.parts dsV[i] := by
+    have := congrArg (fun l => l[i]?) h2
+    simp only [List.getElem?_map, List.getElem?_eq_getElem hi1', List.getElem?_eq_getElem hi2',
+      Option.map_some, Option.some.injEq] at this
+    exact this
+  simp only [LineD.parts, Prod.mk.injEq] at hpart
+  obtain ⟨f1, f2, f3⟩ := hfacts dsC[i] (List.getElem_mem hi1')
+  have hind : ∀ c ∈ dsC[i].indent, c ≠ ESC := by
+    rcases f3 with e | e <;> rw [e]
+    · exact hii
+    · exact hsi
+  rw [strip_render dsC[i] hind (by rw [f2]; simp) f1]
+  unfold LineD.render
+  rw [hpart.1, hpart.2.1, hpart.2.2]
+
+/-- `wrap` with every paragraph on the general path (no byte-length shortcut) -/
+def wrapGeneral (env : Env) (mo : MinimaOracle α) (o : Opts) (text : Text) : Option (List Text) :=
+  wrapR (blen o.lineEnding.str) (wrapSingleLineSlow env mo o) (splitEnding o.lineEnding text) 0 0
+
+/-- a coloured paragraph: blocks and trailing run -/
+abbrev CPara := List Block × Text
+
+theorem wrapR_colour (env : Env) (mo : MinimaOracle α) (hmo : MoShape mo) (o : Opts)
+    (hsp : o.splitter = .none)
+    (hii : ∀ c ∈ o.initialIndent, c ≠ ESC) (hsi : ∀ c ∈ o.subsequentIndent, c ≠ ESC)
+    (paras : List CPara)
+    (hv : ∀ p ∈ paras, ValidB p.1 p.2 ∧ Attached none p.1 p.2 ∧ LF ∉ colOf p.1 p.2 ∧ LF ∉ visOf p.1 ∧
+      (env.opps (visOf p.1)).Pairwise (· < ·)) :
+    ∀ (off off' n : Nat) (ls : List Text),
+      wrapR (blen o.lineEnding.str) (wrapSingleLineSlow env mo o) (paras.map fun p => colOf p.1 p.2) off n = some ls →
+      wrapR (blen o.lineEnding.str) (wrapSingleLineSlow env mo o) (paras.map fun p => visOf p.1) off' n =
+        some (ls.map stripAnsi) := by
+  induction paras with
+  | nil =>
+    intro off off' n ls h
+    simp only [List.map_nil, wrapR_nil, Option.some.injEq] at h ⊢
+    subst h; rfl
+  | cons p r ih =>
+    intro off off' n ls h
+    simp only [List.map_cons] at h ⊢
+    rw [wrapR_cons] at h ⊢
+    obtain ⟨v1, v2, _, _, v5⟩ := hv p (by simp)
+    cases hs : wrapSingleLineSlow env mo o (colOf p.1 p.2) n with
+    | none => rw [hs] at h; simp at h
+    | some dsC =>
+      obtain ⟨dsV, e1, e2⟩ := slow_path_colour_rendered env mo hmo o hsp hii hsi p.1 p.2 v1 v2 v5 n dsC hs
+      rw [hs] at h
+      simp only [e1] at h ⊢
+      have hlen : dsC.length = dsV.length := by simpa using congrArg List.length e2
+      cases hrest : wrapR (blen o.lineEnding.str) (wrapSingleLineSlow env mo o)
+          (r.map fun p => colOf p.1 p.2) (off + blen (colOf p.1 p.2) + blen o.lineEnding.str) (n + dsC.length) with
+      | none => rw [hrest] at h; simp at h
+      | some rr =>
+        rw [hrest] at h
+        simp only [Option.some.injEq] at h
+        have := ih (fun q hq => hv q (by simp [hq])) _ (off' + blen (visOf p.1) + blen o.lineEnding.str) _ rr hrest
+        rw [← hlen, this]
+        simp only [Option.some.injEq]
+        rw [← h, List.map_append, ← e2, List.map_map]
+        rfl
+
+/-- **several paragraphs**: wrapping the coloured text and removing the sequences from every
+    line gives the lines of the visible text (general path; see `wrap_colour_firstfit_ascii`
+    for `wrap` itself) -/
+-- @audit TW.C13.wrapGeneral_colour
+theorem wrapGeneral_colour (env : Env) (mo : MinimaOracle α) (hmo : MoShape mo) (o : Opts)
+    (hsp : o.splitter = .none)
+    (hii : ∀ c ∈ o.initialIndent, c ≠ ESC) (hsi : ∀ c ∈ o.subsequentIndent, c ≠ ESC)
+    (paras : List CPara) (hne : paras ≠ [])
+    (hv : ∀ p ∈ paras, ValidB p.1 p.2 ∧ Attached none p.1 p.2 ∧ LF ∉ colOf p.1 p.2 ∧ LF ∉ visOf p.1 ∧
+      (env.opps (visOf p.1)).Pairwise (· < ·))
+    (ls : List Text)
+    (h : wrapGeneral env mo o (joinWith o.lineEnding.str (paras.map fun p => colOf p.1 p.2)) = some ls) :
+    wrapGeneral env mo o (joinWith o.lineEnding.str (paras.map fun p => visOf p.1)) = some (ls.map stripAnsi) := by
+  unfold wrapGeneral at h ⊢
+  rw [C14.join_split o.lineEnding _ (by simpa using hne) (by
+    intro l hl; obtain ⟨p, hp, rfl⟩ := List.mem_map.mp hl; exact (hv p hp).2.2.1)] at h
+  rw [C14.join_split o.lineEnding _ (by simpa using hne) (by
+    intro l hl; obtain ⟨p, hp, rfl⟩ := List.mem_map.mp hl; exact (hv p hp).2.2.2.1)]
+  exact wrapR_colour env mo hmo o hsp hii hsi paras hv 0 0 0 ls h
+
+end
+
+/-- **`wrap` itself, first-fit, ASCII separator**: the byte-length shortcut is unobservable
+    (C05), so the statement holds for `wrap` on every such coloured text, every width and
+    indents without ESC, `break_words` on or off -/
+-- @audit TW.C13.wrap_colour_firstfit_ascii
+theorem wrap_colour_firstfit_ascii (env : Env) (hcw : ∀ c, env.cw c ≤ c.utf8Size)
+    (mo : MinimaOracle Int) (hmo : MoShape mo) (o : Opts)
+    (hsp : o.splitter = .none) (halg : o.alg = .firstFit) (hsep : o.sep = .ascii)
+    (hii : ∀ c ∈ o.initialIndent, c ≠ ESC) (hsi : ∀ c ∈ o.subsequentIndent, c ≠ ESC)
+    (paras : List CPara) (hne : paras ≠ [])
+    (hv : ∀ p ∈ paras, ValidB p.1 p.2 ∧ Attached none p.1 p.2 ∧ LF ∉ colOf p.1 p.2 ∧ LF ∉ visOf p.1 ∧
+      (env.opps (visOf p.1)).Pairwise (· < ·))
+    (ls : List Text)
+    (h : wrap env mo o (joinWith o.lineEnding.str (paras.map fun p => colOf p.1 p.2)) = some ls) :
+    wrap env mo o (joinWith o.lineEnding.str (paras.map fun p => visOf p.1)) = some (ls.map stripAnsi) := by
+  have hb : Builtin o.splitter := by rw [hsp]; trivial
+  rw [C05.wrap_shortcut_unobservable_ascii env hcw mo o hb halg hsep] at h ⊢
+  exact wrapGeneral_colour env mo hmo o hsp hii hsi paras hne hv ls h
+
+/-! the hypotheses are satisfiable: a coloured sentence (a test, labelled as such) -/
+example :
+    let bs : List Block := [("\x1b[1;31m".toList, 'a'), ([], 'b'), ("\x1b[0m".toList, ' '), ([], 'c')]
+    ValidB bs "\x1b[m".toList ∧ Attached none bs "\x1b[m".toList ∧
+      colOf bs "\x1b[m".toList = "\x1b[1;31mab\x1b[0m c\x1b[m".toList ∧ visOf bs = "ab c".toList := by
+  refine ⟨⟨?_, ?_⟩, ?_, rfl, rfl⟩
+  · intro b hb
+    simp only [List.mem_cons, List.mem_nil_iff, or_false] at hb
+    rcases hb with rfl | rfl | rfl | rfl <;> exact ⟨⟨by decide, by decide, by decide⟩, by decide⟩
+  · exact ⟨by decide, by decide, by decide⟩
+  · simp only [Attached]
+    exact ⟨Or.inr (Or.inl (by decide)), Or.inl trivial, Or.inr (Or.inr ⟨'b', rfl, by decide⟩), Or.inl trivial, Or.inr ⟨'c', rfl, by decide⟩⟩
 
 end TW.C13
